@@ -21,6 +21,9 @@ type GuardRow struct {
 	Except map[string]string
 	// MinSites: hand-confirmed minimum number of access sites.
 	MinSites int
+	// NoEscape: a guarded map/slice field must not be returned (it would be
+	// used outside the critical section).
+	NoEscape bool
 	// Only: if set, the row applies only to functions whose id satisfies it.
 	Only func(fnID string) bool
 }
@@ -248,6 +251,36 @@ func checkGB(w *World, r *Report, la *LockAn, rule string, rows []GuardRow) {
 			for suf, why := range row.Except {
 				if idMatches(fnID(outermost(a.Fn)), suf) {
 					g.excl = why
+				}
+			}
+			if row.NoEscape && a.Kind == "load" {
+				if v, ok := a.In.(ssa.Value); ok && v.Referrers() != nil {
+					switch v.Type().Underlying().(type) {
+					case *types.Map, *types.Slice:
+						for _, u := range *v.Referrers() {
+							esc := false
+							switch y := u.(type) {
+							case *ssa.Return:
+								esc = true
+							case *ssa.Store:
+								if al, isA := y.Addr.(*ssa.Alloc); isA && y.Val == v && !al.Heap {
+									// result spill local (defer): stored value is returned
+									for _, rr := range *al.Referrers() {
+										if ld, isL := rr.(*ssa.UnOp); isL && ld.Referrers() != nil {
+											for _, r2 := range *ld.Referrers() {
+												if _, isRet := r2.(*ssa.Return); isRet {
+													esc = true
+												}
+											}
+										}
+									}
+								}
+							}
+							if esc {
+								g.bad = append(g.bad, fmt.Sprintf("guarded %s is returned at %s: callers iterate it outside the critical section while writers mutate it under the lock", a.Field, w.Pos(posOf(u))))
+							}
+						}
+					}
 				}
 			}
 			need := strings.TrimPrefix(Path(a.Base), "&") + "." + row.Mutex
